@@ -226,13 +226,16 @@ type t2Carrier struct {
 	frozen bool
 	dead   chan struct{}
 	once   sync.Once
+	// frozen carriers: the client's side ends first (clientGone), the server's side at the end of the scenario
+	clientGone    sync.Once
+	releaseFrozen bool
 }
 
 // kill ends the carrier: the WebSocket to the server goes away (cleanly or torn) and the data channel
 // closes, which in production makes pion call OnClose -> WebRTCPeer.Close.
 func (c *t2Carrier) kill(abrupt bool) {
 	c.once.Do(func() {
-		close(c.dead)
+		c.clientGone.Do(func() { close(c.dead) })
 		if abrupt {
 			c.ws.UnderlyingConn().Close()
 		} else {
@@ -287,8 +290,17 @@ func (c *t2Carrier) Send(b []byte) error {
 	return nil
 }
 
-// Close is the data channel's Close, called by WebRTCPeer.cleanup.
+// Close is the data channel's Close, called by WebRTCPeer.cleanup.  A frozen proxy (a stopped process)
+// does not notice that the client has given it up: its connection to the server stays open until the
+// scenario is over; only the client's side of the carrier ends.
 func (c *t2Carrier) Close() error {
+	c.mu.Lock()
+	frozen := c.frozen && c.fault.kind == t2Freeze
+	c.mu.Unlock()
+	if frozen && !c.releaseFrozen {
+		c.clientGone.Do(func() { close(c.dead) })
+		return nil
+	}
 	c.kill(false)
 	return nil
 }
@@ -628,8 +640,11 @@ func TestVerifEnumC01T2(t *testing.T) {
 	}
 	// the staleness path costs 20 s of real time per fault: two scenarios (more in thorough)
 	scen = append(scen, scenario{[]t2Fault{{t2Freeze, true, 3}}, 300000, 200000, false}, scenario{[]t2Fault{{t2Freeze, false, 3}}, 300000, 200000, false})
+	// two proxies in a row freeze (and stay frozen, their connections to the server open) before a working one comes
+	scen = append(scen, scenario{[]t2Fault{{t2Freeze, true, 3}, {t2Freeze, false, 3}}, 300000, 200000, false})
 	if thorough {
-		scen = append(scen, scenario{[]t2Fault{{t2Freeze, true, 1}}, 2000, 3000, false}, scenario{[]t2Fault{{t2Freeze, false, 10}, {t2CutAbrupt, true, 3}}, 300000, 200000, false})
+		scen = append(scen, scenario{[]t2Fault{{t2Freeze, true, 1}}, 2000, 3000, false}, scenario{[]t2Fault{{t2Freeze, false, 10}, {t2CutAbrupt, true, 3}}, 300000, 200000, false},
+			scenario{[]t2Fault{{t2Freeze, true, 3}, {t2Freeze, true, 3}, {t2Freeze, false, 3}}, 300000, 200000, false})
 	}
 	// the bridge writes and closes at once (tor closed first): what it wrote must still arrive although the
 	// proxy carrying the tail swallows it and dies
